@@ -356,6 +356,10 @@ type docSample struct {
 	Base      string   `json:"base_encoding,omitempty"`
 	Mutations []string `json:"mutations"`
 	Doc       string   `json:"doc_quoted"`
+	// second document of the reused-target sequences
+	Base2      string   `json:"second_base_encoding,omitempty"`
+	Mutations2 []string `json:"second_mutations,omitempty"`
+	Doc2       string   `json:"second_doc_quoted,omitempty"`
 }
 
 // makeDoc derives a hostile document for the entry's unmarshaller from one of
@@ -427,6 +431,28 @@ func runDoc(c *core.Case, e *entry, g *gen) {
 	smp.Mutations = muts
 	smp.Doc = qb(doc)
 	offerDoc(c, e, doc, muts)
+
+	// ---- reused target: a second value of the type, its encoding and a
+	// document derived from it, decoded into targets that already hold the
+	// first document.
+	var v2 any
+	if guard(c, typ, "generate", func() { v2 = e.gen(g) }) {
+		return
+	}
+	base2 := firstGoodEncoding(v2)
+	if len(base2) == 0 {
+		base2 = []byte(`<x xmlns="urn:example:none"/>`)
+	}
+	doc2, muts2 := base2, []string{"identity"}
+	if g.r.Intn(2) == 0 {
+		doc2, muts2 = makeDoc(c, e, g, base2)
+	}
+	smp.Base2, smp.Mutations2, smp.Doc2 = qb(base2), muts2, qb(doc2)
+	// hostile first document, then the second one
+	reuseCheck(c, e, "UnmarshalXML(document)", doc, doc2)
+	// the two clean encodings back and forth (shorter-then-longer and
+	// longer-then-shorter, present-then-absent children, padded-then-unpadded base64)
+	reuseCheck(c, e, "UnmarshalXML(own encodings)", base, base2, base)
 }
 
 func offerDoc(c *core.Case, e *entry, doc []byte, muts []string) {
